@@ -388,6 +388,28 @@ func (g *codecTotGen) mutate(raw []byte, other []byte, full, deep bool) {
 	}
 }
 
+// wraps: count fields whose product with an element size overflows the width the parser computes it in. For an
+// element size s and a w-bit count field, c = 2^w/s + 1 makes c*s wrap to a small value r; a body that holds the count
+// at offset o followed by exactly r (+k) bytes satisfies a length guard evaluated in w bits although the list the
+// count announces is far longer than the body.
+func (g *codecTotGen) wraps(raw []byte) {
+	sizes := []int{2, 3, 4, 5, 6, 7, 8, 9, 10, 12, 16, 20, 24, 28}
+	for o := 0; o <= len(raw) && o <= 12; o++ {
+		for _, s := range sizes {
+			for k := 0; k < 2; k++ {
+				c16 := 65536/s + 1
+				m := append(append([]byte{}, raw[:o]...), byte(c16>>8), byte(c16))
+				m = append(m, g.r.Bytes((c16*s)%65536+k)...)
+				g.out(g.final(m), 0)
+				c8 := 256/s + 1
+				m = append(append([]byte{}, raw[:o]...), byte(c8))
+				m = append(m, g.r.Bytes((c8*s)%256+k)...)
+				g.out(g.final(m), 0)
+			}
+		}
+	}
+}
+
 func (g *codecTotGen) random(n, long int) {
 	r := g.r
 	for i := 0; i < n; i++ {
@@ -475,6 +497,9 @@ func codecGenC03(r *fw.Rng, tier string, emit func(fw.Case)) {
 						emit(fw.Case{Op: "tot", Args: []string{e.name, ctx.s, fw.Hex(bodies[small]), fw.Hex(bodies[big])}})
 					}
 				}
+			}
+			if full {
+				g.wraps(codecValidBody(e, g.r, ctx))
 			}
 			if full {
 				g.random(20*mul, 2*mul)
